@@ -5,6 +5,7 @@ mod ic;
 mod interp;
 mod judge;
 mod slot;
+mod stack;
 mod util;
 mod val;
 
@@ -28,6 +29,13 @@ fn main() {
             let out = arg(&args, "--out").expect("--out");
             judge::cmd_replay(file, &prop, &out);
         }
+        "stack-replay" => {
+            let file = args.get(2).expect("edge file");
+            let prop = arg(&args, "--prop").expect("--prop");
+            let out = arg(&args, "--out").expect("--out");
+            stack::cmd_replay(file, &prop, &out);
+        }
+        "stacks" => println!("{}", serde_json::to_string_pretty(&stack::stacks_json()).unwrap()),
         "catalogue" => println!("{}", serde_json::to_string_pretty(&catalogue::catalogue_json()).unwrap()),
         "profile" => println!("{}", util::profile_name()),
         _ => {
